@@ -112,6 +112,7 @@ SRC_TIE = {
     "C02": ["activateSync", "activateAsync"] + _W + _A,
     "C03": ["processSync", "processAsync"],
     "C04": ["activateSync", "activateAsync", "processSync", "processAsync"] + _A,
+    "C06": ["processSync", "processAsync"],
     "C05": ["activateSync", "activateAsync", "triggerSync", "triggerAsync", "processSync", "processAsync"] + _W + _G + _A,
     "C08": _W + _G,
     "C11": ["triggerSync", "triggerAsync"],
